@@ -460,11 +460,18 @@ class Element(Node):
                 raise IllegalChild( "<%s> is not allowed in <%s>" % ( element.tagName, self.tagName))
         self.appendChild(element)
 
+    def _allows_text(self):
+        """ Whether the grammar lets the element hold character data. An element
+            the tables do not know (MathML content, XForms instance data, foreign
+            elements) is not checked: its children are not checked either.
+        """
+        return self.qname in grammar.allows_text or self.qname not in grammar.allowed_children
+
     def addText(self, text, check_grammar=True):
         """ Adds text to an element
             Setting check_grammar=False turns off grammar checking
         """
-        if check_grammar and self.qname not in grammar.allows_text:
+        if check_grammar and not self._allows_text():
             raise IllegalText( "The <%s> element does not allow text" % self.tagName)
         else:
             if text != '':
@@ -474,7 +481,7 @@ class Element(Node):
         """ Adds CDATA to an element
             Setting check_grammar=False turns off grammar checking
         """
-        if check_grammar and self.qname not in grammar.allows_text:
+        if check_grammar and not self._allows_text():
             raise IllegalText( "The <%s> element does not allow text" % self.tagName)
         else:
             self.appendChild(CDATASection(cdata))
